@@ -469,6 +469,19 @@ class RunTaskHandler(StabilizeHandler[RunTask]):
                 logger.error("Task %s not found in stage %s", task_id, stage_id)
                 return
 
+            # The stage may have been finished (canceled, typically) while the
+            # task was executing. Its result is void then: applying it would
+            # move a completed stage/task to SUSPENDED, RUNNING or REDIRECT.
+            if stage.status.is_complete or task_model.status.is_complete:
+                logger.info(
+                    "Ignoring result of task %s - stage %s is %s, task is %s",
+                    task_model.name,
+                    stage.name,
+                    stage.status.name,
+                    task_model.status.name,
+                )
+                return
+
             process_result(
                 stage,
                 task_model,
